@@ -1,37 +1,47 @@
 import Props.Defs
+import Proofs.ScanInv
+set_option linter.unusedVariables false  -- `hms` is part of the fixed statements but not needed by most proofs
 namespace Coma.Proofs
 open Coma Coma.Spec
 
 theorem scan_ordered_separated (ms bst : Int) (scores : List Int) (hms : 0 < ms) (hb : 0 ≤ bst) :
     (∀ r ∈ scanRanges ms bst scores, r.start < r.stop ∧ r.stop ≤ scores.length) ∧
     (scanRanges ms bst scores).Pairwise (fun r1 r2 => r1.stop < r2.start) := by
-  sorry
+  obtain ⟨h1, h2⟩ := scan_all ms bst scores hb
+  exact ⟨fun r hr => ⟨(h1 r hr).1.lt, (h1 r hr).1.le⟩, h2⟩
 
 theorem scan_ends_positive (ms bst : Int) (scores : List Int) (hms : 0 < ms) (hb : 0 ≤ bst) :
     ∀ r ∈ scanRanges ms bst scores,
       0 < scores.getD r.start 0 ∧ 0 < scores.getD (r.stop - 1) 0 := by
-  sorry
+  intro r hr
+  have g := ((scan_all ms bst scores hb).1 r hr).1
+  exact ⟨g.pos_start, g.pos_end⟩
 
 theorem scan_score (ms bst : Int) (scores : List Int) (hms : 0 < ms) (hb : 0 ≤ bst) :
     ∀ r ∈ scanRanges ms bst scores, r.score = sumRange scores r.start r.stop ∧ ms ≤ r.score := by
-  sorry
+  intro r hr
+  have g := (scan_all ms bst scores hb).1 r hr
+  exact ⟨g.1.score_eq, g.2.1⟩
 
 theorem scan_prefix (ms bst : Int) (scores : List Int) (hms : 0 < ms) (hb : 0 ≤ bst) :
     ∀ r ∈ scanRanges ms bst scores, ∀ k, r.start < k → k ≤ r.stop →
       0 < sumRange scores r.start k ∧
       ∀ j, r.start < j → j < k → sumRange scores r.start j - bst < sumRange scores r.start k := by
-  sorry
+  intro r hr
+  exact ((scan_all ms bst scores hb).1 r hr).1.pre
 
 theorem scan_first_max (ms bst : Int) (scores : List Int) (hms : 0 < ms) (hb : 0 ≤ bst) :
     ∀ r ∈ scanRanges ms bst scores, ∀ k, r.start < k → k < r.stop →
       sumRange scores r.start k < r.score := by
-  sorry
+  intro r hr
+  exact ((scan_all ms bst scores hb).1 r hr).1.first
 
 theorem scan_not_extendable (ms bst : Int) (scores : List Int) (hms : 0 < ms) (hb : 0 ≤ bst) :
     ∀ r ∈ scanRanges ms bst scores, ∀ m, r.stop < m → m ≤ scores.length →
       r.score < sumRange scores r.start m →
       ∃ k, r.stop < k ∧ k < m ∧ sumRange scores r.start k ≤ max 0 (r.score - bst) := by
-  sorry
+  intro r hr
+  exact ((scan_all ms bst scores hb).1 r hr).2.2
 
 theorem getSegments_spec (P : Params) (peak : Int) (xs : List APos) :
     (scanRanges P.minScore P.bst (xs.map (APos.score P)) = [] →
@@ -40,11 +50,25 @@ theorem getSegments_spec (P : Params) (peak : Int) (xs : List APos) :
         getSegments P peak xs =
           (scanRanges P.minScore P.bst (xs.map (APos.score P))).map
             (fun r => ⟨peak, (xs.drop r.start).take (r.stop - r.start)⟩)) := by
-  sorry
+  unfold getSegments
+  constructor
+  · intro h; rw [h]
+  · intro h
+    split
+    · contradiction
+    · rfl
+
+theorem sumScores_eq_sumInts (P : Params) (l : List APos) :
+    sumScores P l = sumInts (l.map (APos.score P)) := by
+  induction l with
+  | nil => rfl
+  | cons a as ih => simp [sumScores, sumInts, ih]
 
 theorem getSegments_score (P : Params) (peak : Int) (xs : List APos) (hms : 0 < P.minScore) (hb : 0 ≤ P.bst) :
     ∀ r ∈ scanRanges P.minScore P.bst (xs.map (APos.score P)),
       (⟨peak, (xs.drop r.start).take (r.stop - r.start)⟩ : Seg).score P = r.score := by
-  sorry
+  intro r hr
+  rw [(scan_score P.minScore P.bst _ hms hb r hr).1]
+  simp only [Seg.score, sumScores_eq_sumInts, sumRange, List.map_take, List.map_drop]
 
 end Coma.Proofs
